@@ -109,6 +109,11 @@ def run(ctx, rep, model=True):
             rep.count("names-differing-by-case")
         if i % 4 == 1:
             spec["data"]["plant"] = "nan-fine"; rep.count("nan-stored-in-fine-cells-over-finite-coarse-cells")
+        if i % 6 == 2:
+            spec["data"]["plant"] = "huge"; rep.count("values-beyond-the-single-precision-range")
+        if i % 4 == 0:
+            # every level in ONE binary file, its boxes out of header order in it
+            spec["layout"] = plotgen.random_layout(ctx.rng, spec["levels"], "perm"); rep.count("one-binary-file-per-level")
         if i % 6 == 4:
             # (multi-level, scattered layouts with two or three fields: boxes that are not the last of their file)
             spec["data"]["plant"] = "fab-bytes"; rep.count("finite-value-whose-bytes-spell-FAB")
